@@ -33,6 +33,9 @@ PROPS = {
     "C01-ipv6-address-tuple-passed-raw": ["C01"], "C02-response-headers-cached-and-extended-in-place": ["C02", "C19"], "C05-h11-close-deferred-while-client-uploads": ["C05", "C06"],
     "C09-reset-frees-buffer-under-send-task": ["C09", "C04"], "C11-denial-body-only-with-head": ["C11"], "C12-ws-text-check-weakened-to-none": ["C12"],
     "C14-lifespan-send-any-outcome-sets-event": ["C14"], "C17-body-limit-checked-per-chunk": ["C17"], "C18-h11-request-counted-at-close": ["C18"], "C19-quic-addresses-shared-list": ["C19"],
+    "C03-trio-closed-stream-write-raises-into-app": ["C03"], "C04-close-stream-pop-without-guard": ["C04"], "C06-malformed-body-mid-response-not-closed": ["C06", "C04"],
+    "C07-no-stream-closed-after-partial-response": ["C07", "C05"], "C08-pop-zero-window-early-return": ["C08"], "C10-empty-binary-send-falls-to-text": ["C10"],
+    "C13-h2c-chunked-body-not-a-body": ["C13"], "C15-terminated-read-once-per-batch": ["C15"], "C16-trio-idle-waits-on-terminate": ["C16", "C07"], "C20-dispatcher-exact-hit-fast-path": ["C20"],
 }
 claimed = {c["property_id"] for c in json.load(open(os.path.join(HERE, "MANIFEST.json")))["checks"]}
 sel = sys.argv[1:]
